@@ -329,7 +329,12 @@ func c02(args []string) error {
 						}
 						qc, err := signers[rng.Intn(n)].Auth.CreateQuorumCert(w.Blocks["B1"], pcs)
 						if err != nil {
-							return fmt.Errorf("CreateQuorumCert: %v", err)
+							// honest votes of distinct replicas must combine: reported as an honest certificate that is not accepted
+							abs := hx.AbsQC{Hash: "B1", View: 1, BlockView: 1, Known: true, Sig: w.GoodSig(who, hx.BlockMsg("B1"))}
+							for _, v := range verifiers {
+								o.emit(obj{"kind": "qc", "n": n, "scheme": scheme, "cache": v.cache, "mut": "honest-created", "honest": true, "qc": abs, "ok": false, "panic": "", "err": "CreateQuorumCert: " + err.Error()})
+							}
+							continue
 						}
 						abs := hx.AbsQC{Hash: "B1", View: int(qc.View()), BlockView: 1, Known: true, Sig: w.GoodSig(hx.IDs(qc.Signature().Participants()), hx.BlockMsg("B1"))}
 						for _, v := range verifiers {
